@@ -67,6 +67,7 @@ type Obligation struct {
 	Cex     map[string]string // candidate counterexample: parameter name -> value (ground model)
 	CexRets []string          // the results the encoding predicts for it (one per result; "" if not scalar)
 	Sig     *ScalarSig        // set when the function can be called with a model's values (cex replay)
+	SpecErr string            // kind "spec": why the clause could not be evaluated
 	SmtFile string
 	idx     int
 	seg     int
@@ -83,9 +84,10 @@ type Item struct {
 
 // Fx is the verification context of one top-level function.
 type Fx struct {
-	curSeg     int    // current segment (see Item)
-	permNext   bool   // the next assertions are kept summaries
-	rootAlloc  string // allocation counter at the entry of the verified function
+	curSeg     int              // current segment (see Item)
+	permNext   bool             // the next assertions are kept summaries
+	rootAlloc  string           // allocation counter at the entry of the verified function
+	badClauses map[*Clause]bool // loop clauses that do not evaluate (reported once)
 	E          *Engine
 	top        *ssa.Function
 	topKey     string
